@@ -102,6 +102,32 @@ func runC11(c *Ctx) {
 				case *ssa.BinOp:
 					// set == other on the nil path
 					ok := x.Op == token.EQL && ((x.X == set && x.Y == other) || (x.X == other && x.Y == set))
+					// `other == nil` where set is known to be nil (or the reverse) is the same test
+					if !ok && x.Op == token.EQL {
+						p := x.X
+						if core.IsNilConst(x.X) {
+							p = x.Y
+						} else if !core.IsNilConst(x.Y) {
+							p = nil
+						}
+						var q ssa.Value
+						switch p {
+						case set:
+							q = other
+						case other:
+							q = set
+						}
+						if q != nil {
+							for _, g := range core.Facts(f).At(ret.Block()) {
+								cond, truth := core.StripNot(g.Cond, g.Truth)
+								if bo, isB := cond.(*ssa.BinOp); isB && (bo.Op == token.EQL) == truth && (bo.Op == token.EQL || bo.Op == token.NEQ) {
+									if (bo.X == q && core.IsNilConst(bo.Y)) || (bo.Y == q && core.IsNilConst(bo.X)) {
+										ok = true
+									}
+								}
+							}
+						}
+					}
 					c.check(ok, "C11.equal", f, what, ret, "pointer identity when one side is nil")
 				case *ssa.Call:
 					n := core.CalleeName(&x.Call)
